@@ -750,6 +750,20 @@ func (e *Env) StartRPC(parent context.Context, ch grpc.ClientConnInterface, spec
 		defer e.wg.Done()
 		defer close(spec.done)
 		e.runClientOps(spec, "c:"+spec.ID, spec.Client)
+		// the caller's last act, once the RPC is over and nothing of it will be read again: write
+		// into every piece of metadata the library handed to it (single-actor RPCs only)
+		if spec.terminal.Load() && len(spec.ClientRecv) == 0 && len(spec.ClientHdr) == 0 {
+			scribble(spec.hdrOpt, spec.ID)
+			scribble(spec.trlOpt, spec.ID)
+			scribble(spec.hdrOpt2, spec.ID)
+			scribble(spec.trlOpt2, spec.ID)
+			if spec.stream != nil {
+				if md, err := spec.stream.Header(); err == nil {
+					scribble(md, spec.ID)
+				}
+				scribble(spec.stream.Trailer(), spec.ID)
+			}
+		}
 	}()
 }
 
@@ -902,6 +916,15 @@ func (e *Env) runClientOps(spec *RPCSpec, actor string, ops []Op) {
 		default:
 			panic("unknown client op " + op.K)
 		}
+	}
+}
+
+// scribble writes into metadata the library handed to the caller (as a proxy that
+// annotates what it forwards does): what a caller does to its own copy must never
+// show up in any other RPC.
+func scribble(md metadata.MD, id string) {
+	if md != nil {
+		md.Set("x-scribbled-by-caller", id)
 	}
 }
 
